@@ -50,6 +50,9 @@ CHECKS = {
  'C20': dict(cat='exploration', engine='E2', tech='exhaustive enumeration of the shipped registry (names x aliases x case variants, both data sources) and of property-call pairs against CoolProp PropsSI',
    text='All 176 shipped adsorbates x name and every alias x 5 case variants through Adsorbate.find and the isotherm constructor; alias -> adsorbate must be a function; adsorbates.json and the packaged default.db must describe the same registry; registry-replacement sequences. All 81 backend-linked adsorbates x a temperature lattice across (T_triple, T_critical) (quick 5, thorough 25 points) x 7 property methods against the independent high-level CoolProp API, density identities, p_triple <= p_sat <= p_crit, monotone p_sat, positive enthalpy, all 8 pressure units, and every ordered pair of 10 property calls (incl. pressure-specified enthalpy) on a reset adsorbate; the fallback alphabet (4 adsorbate kinds x 13 methods x calculate flag) and super-critical refusal.',
    note='CoolProp trusted as equation of state.', ref='§4 C20'),
+ 'C14': dict(cat='exploration', engine='E2', tech='bounded-exhaustive enumeration of generating parameters x sampling grids x limit pairs through the raw and isotherm entry points; closed-form expectations',
+   text='BET (n_m x C x 24 grids x cross-sections), Langmuir (n_m x K), t-plot (slope x intercept on the 4 built-in thickness models and a callable), alpha-s (a curve against itself and scaled copies), DR/DA (volume x energy x exponent 1..3, fixed and searched) on exactly generated data; for every grid the automatic window, every pair of 6 off-grid limit positions, one-sided and zero limits: recovered parameters, selected index window (exactly the points strictly inside the limits), refusal below three points with CalculationError, inputs unchanged; automatic BET window on data with an interior maximum of n(1-p); isotherm entry points in three stored representations.',
+   note='Limits never coincide with a data pressure; both readings of where n(1-p) stops increasing are accepted.', ref='§4 C14'),
 }
 
 def main():
